@@ -7,7 +7,13 @@ RULES = [
     ('C18', [r'^Machine\._color_light\[RAW,int\]', r'^Machine\._power_light\[RAW', r'^Machine\._color_mz_light\[RAW,int', r'^Machine\._color_matrix_light\[RAW,int\]',
              r"^Parser\._set_reg\[\('REGISTER', '(hue|saturation|brightness|kelvin)'\)", r'^Parser\._set\[', r'^Parser\._power_o', r'^Parser\._operand$',
              r'^MatrixParser\.matrix_spec\[BEGIN\]', r'^Parser\._stage', r'^Parser\._set_units', r'^MatrixParser\._inline_operand', r'^Parser\._zone_range']),
-    ('C01', [r'^Machine\._switch_unit_mode', r'^CallStack\.', r'^StackFrame\.', r'^VmMath\.', r'^lemma:JUMP']),
+    ('C01', [r'^Machine\._switch_unit_mode', r'^CallStack\.', r'^StackFrame\.', r'^VmMath\.', r'^lemma:JUMP', r'^Light\.', r'^MultizoneLight\.', r'^EvalStack', r'^Settings\.']),
+    ('C02', [r'^CallStack\.', r'^StackFrame\.', r'^StdOutOutput\.out', r'^EvalStack', r'^lemma:push a; push b']),
+    ('C04', [r'^Light\.', r'^MultizoneLight\.', r'^EvalStack', r'^lemma:push a; push b']),
+    ('C06', [r'^EvalStack', r'^lemma:push a; push b']),
+    ('C03', [r'^EvalStack', r'^lemma:push a; push b']),
+    ('C07', [r'^Machine\._color_matrix_light\[.* lacks the capability']),
+    ('C08', [r'^Settings\.']),
 ]
 for pid, pats in RULES:
     for c in spec.REGISTRY:
